@@ -33,7 +33,13 @@ import jax
 import jax.tree_util as jtu
 import numpy as np
 
-from jax2onnx.plugins._patching import AssignSpec, MonkeyPatchSpec, apply_patches
+from jax2onnx.plugins._patching import (
+    _MISSING,
+    AssignSpec,
+    MonkeyPatchSpec,
+    _own_attr,
+    apply_patches,
+)
 from jax2onnx.plugins.jax._autodiff_utils import backfill_missing_transpose_rules
 from jax2onnx._compat.jax import (
     NOT_MAPPED,
@@ -1383,19 +1389,22 @@ def apply_monkey_patches() -> Iterator[None]:
     stays pristine once conversion finishes.
     """
     touched: list[tuple[Any, str]] = []
-    for patch_fn, targets, attr in _iter_patch_specs():
-        for tgt in targets:
-            key = (tgt, attr)
-            st = _PATCH_STATE.get(key)
-            if st is None:
-                orig = getattr(tgt, attr)
-                new = patch_fn(orig)
-                setattr(tgt, attr, new)
-                _PATCH_STATE[key] = {"orig": orig, "count": 1}
-            else:
-                st["count"] += 1
-            touched.append(key)
     try:
+        # The entry loop is inside the ``try``: if resolving or wrapping one call-site fails,
+        # the sites patched so far are restored instead of staying patched forever.
+        for patch_fn, targets, attr in _iter_patch_specs():
+            for tgt in targets:
+                key = (tgt, attr)
+                st = _PATCH_STATE.get(key)
+                if st is None:
+                    orig = getattr(tgt, attr)
+                    own = _own_attr(tgt, attr)
+                    new = patch_fn(orig)
+                    setattr(tgt, attr, new)
+                    _PATCH_STATE[key] = {"orig": orig, "own": own, "count": 1}
+                else:
+                    st["count"] += 1
+                touched.append(key)
         yield
     finally:
         for key in reversed(touched):
@@ -1406,7 +1415,12 @@ def apply_monkey_patches() -> Iterator[None]:
             if st["count"] == 0:
                 tgt, attr = key
                 try:
-                    setattr(tgt, attr, st["orig"])
+                    # Put back what the target itself held: an attribute that was only
+                    # inherited (or provided by the metaclass) is removed again.
+                    if st["own"] is _MISSING:
+                        delattr(tgt, attr)
+                    else:
+                        setattr(tgt, attr, st["own"])
                 finally:
                     _PATCH_STATE.pop(key, None)
 
